@@ -203,6 +203,9 @@ func runOp(op *casefmt.Op, st *opState) {
 	if !op.NoHandlers {
 		opts = append(opts, genql.UnReportedErrors(func(err error) {
 			noteReported(obs, errText(err))
+			if op.HandlerPanics {
+				panic("the caller's error handler cannot cope with: " + errText(err))
+			}
 		}))
 		opts = append(opts, genql.CompletedCallback(func() { noteCompleted(obs) }))
 	}
